@@ -1,0 +1,23 @@
+//go:build verif
+
+package types
+
+import "reflect"
+
+// VerifWireTypes maps every type of this package that has a hand-written
+// EncodeRLP/DecodeRLP to the struct it delegates to (verification hook, add-only).
+func VerifWireTypes() map[reflect.Type]reflect.Type {
+	return map[reflect.Type]reflect.Type{
+		reflect.TypeOf(Transaction{}):       reflect.TypeOf(txdata{}),
+		reflect.TypeOf(Block{}):             reflect.TypeOf(extblock{}),
+		reflect.TypeOf(StorageBlock{}):      reflect.TypeOf(storageblock{}),
+		reflect.TypeOf(Log{}):               reflect.TypeOf(rlpLog{}),
+		reflect.TypeOf(LogForStorage{}):     reflect.TypeOf(rlpStorageLog{}),
+		reflect.TypeOf(Receipt{}):           reflect.TypeOf(receiptRLP{}),
+		reflect.TypeOf(ReceiptForStorage{}): reflect.TypeOf(receiptStorageRLP{}),
+	}
+}
+
+// VerifStatusField names the wire field that Receipt.setStatus constrains
+// (0x01, empty, or a 32-byte post-state root).
+const VerifStatusField = "PostStateOrStatus"
